@@ -107,6 +107,8 @@ def _rand_records0(arg):
                 except (TypeError, ValueError):
                     path = 'write'
             c = dc.relativise(dc.cand_abs(conc, dc.is_literal), conc, dt, path)
+            if dc.ungrounded(dt, c, path):
+                continue          # a plain number the model cannot place on the grid of a (g/b)scaled position: not a case
             p = dc.NONE
             prev = None
             if path != 'call' and rnd.random() < 0.4:
